@@ -614,4 +614,189 @@ theorem signed_row_dot (reac prod : List String) (rc pc : List Comp) (ck : Int) 
   rw [dot_append _ _ _ _ (by simp [hlr, hxr]), dot_map_mul_left, dot_map_mul_left]
   ring
 
+/-! ## Part 6: duplicate handling -/
+
+section Sorted
+variable {α : Type} [LT α] [DecidableRel (α := α) (· < ·)] [DecidableEq α]
+
+theorem mem_insertSorted (x a : α) (l : List α) : a ∈ insertSorted x l ↔ a = x ∨ a ∈ l := by
+  induction l with
+  | nil => simp [insertSorted]
+  | cons y r ih =>
+    unfold insertSorted
+    by_cases h1 : x = y
+    · subst h1
+      simp only [if_true]
+      constructor
+      · intro h; exact Or.inr h
+      · rintro (h | h)
+        · subst h; exact List.mem_cons_self ..
+        · exact h
+    · simp only [h1, if_false]
+      by_cases h2 : x < y
+      · simp only [h2, if_true, List.mem_cons]
+      · simp only [h2, if_false, List.mem_cons, ih]
+        constructor
+        · rintro (h | h | h)
+          · exact Or.inr (Or.inl h)
+          · exact Or.inl h
+          · exact Or.inr (Or.inr h)
+        · rintro (h | h | h)
+          · exact Or.inr (Or.inl h)
+          · exact Or.inl h
+          · exact Or.inr (Or.inr h)
+
+theorem mem_foldl_insertSorted (a : α) (l : List α) : ∀ acc : List α,
+    a ∈ l.foldl (fun acc x => insertSorted x acc) acc ↔ a ∈ acc ∨ a ∈ l := by
+  induction l with
+  | nil => intro acc; simp
+  | cons x r ih =>
+    intro acc
+    simp only [List.foldl_cons, ih, mem_insertSorted, List.mem_cons]
+    constructor
+    · rintro ((h | h) | h)
+      · exact Or.inr (Or.inl h)
+      · exact Or.inl h
+      · exact Or.inr (Or.inr h)
+    · rintro (h | h | h)
+      · exact Or.inl (Or.inr h)
+      · exact Or.inl (Or.inl h)
+      · exact Or.inr h
+
+theorem mem_sortedSet (a : α) (l : List α) : a ∈ sortedSet l ↔ a ∈ l := by
+  unfold sortedSet
+  rw [mem_foldl_insertSorted]
+  simp
+
+end Sorted
+
+theorem firstOk_mem {α : Type} (l : List (Except Err α)) (r : α) (h : firstOk l = some r) : .ok r ∈ l := by
+  induction l with
+  | nil => simp [firstOk] at h
+  | cons e t ih =>
+    cases e with
+    | ok v =>
+      simp only [firstOk, Option.some.injEq] at h
+      subst h
+      exact List.mem_cons_self ..
+    | error e => exact List.mem_cons_of_mem _ (ih (by simpa [firstOk] using h))
+
+theorem firstOkValueError_mem {α : Type} (i : List String) (l : List (Except Err α)) (r : α)
+    (h : firstOkValueError i l = .ok r) : .ok r ∈ l := by
+  induction l with
+  | nil => simp [firstOkValueError] at h
+  | cons e t ih =>
+    cases e with
+    | ok v =>
+      simp only [firstOkValueError, Except.ok.injEq] at h
+      subst h
+      exact List.mem_cons_self ..
+    | error e =>
+      cases e with
+      | valueError tag => exact List.mem_cons_of_mem _ (ih (by simpa [firstOkValueError] using h))
+      | _ => simp [firstOkValueError] at h
+
+/-- whatever the duplicate search returns is the duplicate-free call's answer on a selection of the species
+    given: a sub-list of each side, no species on both sides -/
+theorem dupSearch_selection {α : Type} (mode : Mode) (core : List String → List String → Except Err α) :
+    ∀ (fuel : ℕ) (allow : Bool) (reac prod : List String) (r : α),
+      dupSearch mode core fuel allow reac prod = .ok r →
+      ∃ r' p', core r' p' = .ok r ∧ (∀ s ∈ r', s ∈ reac) ∧ (∀ s ∈ p', s ∈ prod) ∧ (∀ s ∈ r', s ∉ p') := by
+  intro fuel
+  induction fuel with
+  | zero => intro allow reac prod r h; simp [dupSearch] at h
+  | succ fuel ih =>
+    intro allow reac prod r h
+    unfold dupSearch at h
+    simp only at h
+    split at h
+    · rename_i hemp
+      refine ⟨reac, prod, h, fun s hs => hs, fun s hs => hs, ?_⟩
+      intro s hs hp
+      have : s ∈ sortedSet (reac.filter (prod.contains ·)) := by
+        rw [mem_sortedSet, List.mem_filter]
+        exact ⟨hs, by simpa using hp⟩
+      rw [List.isEmpty_iff] at hemp
+      rw [hemp] at this
+      cases this
+    · split at h
+      · cases h
+      · split at h
+        · cases h
+        · split at h
+          · cases h
+          · split at h
+            · rename_i r0 hfirst
+              injection h with h
+              subst h
+              have hmem := firstOk_mem _ _ hfirst
+              obtain ⟨d, _, hd⟩ := List.mem_map.1 hmem
+              obtain ⟨r', p', hc, h1, h2, h3⟩ := ih _ _ _ _ hd
+              exact ⟨r', p', hc, fun s hs => (List.mem_filter.1 (h1 s hs)).1,
+                fun s hs => (List.mem_filter.1 (h2 s hs)).1, h3⟩
+            · have hmem := firstOkValueError_mem _ _ _ h
+              obtain ⟨flags, _, hd⟩ := List.mem_map.1 hmem
+              obtain ⟨r', p', hc, h1, h2, h3⟩ := ih _ _ _ _ hd
+              refine ⟨r', p', hc, ?_, ?_, h3⟩
+              · intro s hs
+                have := h1 s hs
+                simp only [bruteSides] at this
+                rw [mem_sortedSet] at this
+                exact (List.mem_filter.1 this).1
+              · intro s hs
+                have := h2 s hs
+                simp only [bruteSides] at this
+                rw [mem_sortedSet] at this
+                exact (List.mem_filter.1 this).1
+
+/-! ## Part 7: the returned dicts -/
+
+theorem mkDict_keys (mode : Mode) (keys : List String) (sol : List Entry) : ∀ (side : List String)
+    (d : List (String × Entry)), mkDict mode keys sol side = some d → side.Nodup → d.map (·.1) = side := by
+  intro side
+  induction side with
+  | nil => intro d h _; simp [mkDict] at h; subst h; rfl
+  | cons k r ih =>
+    intro d h hnd
+    unfold mkDict at h
+    split at h
+    · rename_i e d' _ hd'
+      injection h with h
+      subst h
+      have hr := ih d' hd' (List.nodup_cons.1 hnd).2
+      have hk : k ∉ r := (List.nodup_cons.1 hnd).1
+      have hfil : d'.filter (fun q => q.1 != k) = d' := by
+        rw [List.filter_eq_self]
+        intro q hq
+        have : q.1 ∈ r := by rw [← hr]; exact List.mem_map.2 ⟨q, hq, rfl⟩
+        simp only [bne_iff_ne, ne_eq]
+        intro heq
+        exact hk (heq ▸ this)
+      simp [hfil, hr]
+    · cases h
+
+/-! ## Part 8: resolution of `substances` -/
+
+theorem zip_lookup (table : List (String × Comp)) : ∀ (keys : List String) (cs : List Comp),
+    lookupAll table keys = some cs → ∀ k ∈ keys, (keys.zip cs).lookup k = table.lookup k := by
+  intro keys
+  induction keys with
+  | nil => intro cs _ k hk; cases hk
+  | cons k0 r ih =>
+    intro cs h k hk
+    unfold lookupAll at h
+    split at h
+    · rename_i c cs' h1 h2
+      injection h with h
+      subst h
+      simp only [List.zip_cons_cons, List.lookup_cons]
+      by_cases hkk : k = k0
+      · subst hkk; simp [h1]
+      · have hbeq : (k == k0) = false := by simpa using hkk
+        rw [hbeq]
+        rcases List.mem_cons.1 hk with h3 | h3
+        · exact absurd h3 hkk
+        · exact ih cs' h2 k h3
+    · cases h
+
 end ChemModel.Balance
